@@ -33,6 +33,14 @@ Identifier-level value flow, computed from the `ast` of the CURRENT source tree:
     and — the objects travel through untyped factories — any identifier with the name of such a holder (leading
     underscores ignored).
 
+  * stores into what a __repr__ prints ("store" rows): a `__repr__` / `__str__` that formats a CONTAINER held by
+    reference (BaseDriver.__repr__ prints the user's own `transport_options` dict) shows whatever is put into that
+    container later, anywhere.  Every in-place store — `x[k] = v`, `x[k] += v`, `x.update(..)`, `x.setdefault(k, v)`,
+    `x.append / extend / insert / add(..)` — whose receiver may BE (alias_flows: names, attributes, subscripts,
+    `.get()/.setdefault()/.pop()` results, `a or b`, `a if c else b`; through local assignments, attribute stores and
+    call edges — not copies, literals or other calls) an object named like one a __repr__/__str__ of the package
+    formats as a whole, is a row of kind "store" with the flows of the stored values (closed like any other flow).
+
 What is decided about the table (no secret identifier reaches a sink unguarded) is decided in Coq
 (model/Secrets.v [sinks_ok], props/C12.v by vm_compute).  This file only extracts."""
 import ast
@@ -108,6 +116,7 @@ class Func:
         self.assign = {}     # var -> list of (expr, ctx_guards)   (value expressions assigned to var)
         self.calls = []      # (Call node, ctx_guards)
         self.sinks = []      # (kind, node, [exprs], ctx_guards)
+        self.mutations = []  # (receiver expr, [stored value exprs], ctx_guards, node)   in-place stores into a container
         self.tuple_guard = {}  # var -> (guard var)  : var[0] is guarded by guard var (co-indexed element 2)
         self.self_loads = set()   # attribute names loaded from self / cls
         self.other_loads = set()  # attribute names loaded from any other receiver
@@ -270,6 +279,37 @@ def flows(e, g=frozenset()):
     raise ValueError("gen_sinks: unexpected expression node %s" % type(e).__name__)
 
 
+# methods that store their arguments into the receiver, in place
+MUTATORS = {"update", "setdefault", "append", "extend", "insert", "add", "appendleft", "extendleft", "__setitem__"}
+# methods whose result IS (an element of) the receiver, not a copy
+ALIAS_METHODS = {"get", "setdefault", "pop"}
+
+
+def alias_flows(e):
+    """identifiers the expression's value may BE (the same object, or an element held by it): an in-place store into
+    the value is a store into what those identifiers hold.  Copies, literals and other calls break the alias."""
+    if e is None:
+        return set()
+    if isinstance(e, ast.Name):
+        return {e.id}
+    if isinstance(e, ast.Attribute):
+        return {e.attr}
+    if isinstance(e, ast.Subscript):
+        return alias_flows(e.value)
+    if isinstance(e, ast.IfExp):
+        return alias_flows(e.body) | alias_flows(e.orelse)
+    if isinstance(e, ast.BoolOp):
+        return set().union(*[alias_flows(x) for x in e.values])
+    if isinstance(e, (ast.NamedExpr, ast.Await, ast.Starred)):
+        return alias_flows(e.value)
+    if isinstance(e, ast.Call) and isinstance(e.func, ast.Attribute) and e.func.attr in ALIAS_METHODS:
+        out = alias_flows(e.func.value)
+        for a in list(e.args)[1:] + [k.value for k in e.keywords]:
+            out |= alias_flows(a)       # the default handed back when the key is missing
+        return out
+    return set()
+
+
 # calls whose result shows the argument object itself (its repr / its fields)
 SHOWING_CALLS = {"str", "repr", "ascii", "format", "asdict", "astuple", "vars", "dict", "list", "tuple", "sorted", "pformat"}
 SHOWING_METHODS = {"format", "join", "format_map", "__repr__", "__str__", "__format__"}
@@ -376,9 +416,20 @@ class Collector(ast.NodeVisitor):
     visit_AsyncFunctionDef = visit_FunctionDef
     visit_ClassDef = visit_FunctionDef
 
-    def _assign(self, target, value):
+    def _assign(self, target, value, node=None):
         for t in _targets(target):
             self.fn.assign.setdefault(t, []).append((value, self.g))
+        self._stores(target, value, node)
+
+    def _stores(self, target, value, node):
+        """x[k] = v (also inside tuple targets): an in-place store into x"""
+        if isinstance(target, ast.Subscript):
+            self.fn.mutations.append((target.value, [value], self.g, node or target))
+        elif isinstance(target, (ast.Tuple, ast.List)):
+            for e in target.elts:
+                self._stores(e, value, node)
+        elif isinstance(target, ast.Starred):
+            self._stores(target.value, value, node)
 
     def visit_Assign(self, node):
         for t in node.targets:
@@ -447,6 +498,8 @@ class Collector(ast.NodeVisitor):
         elif isinstance(f, ast.Name) and f.id in ("user_warning", "warn"):
             exprs = list(node.args) + [k.value for k in node.keywords]
             self.fn.sinks.append(("log", node, exprs, self.g))
+        if isinstance(f, ast.Attribute) and f.attr in MUTATORS and not _is_logger(f.value):
+            self.fn.mutations.append((f.value, list(node.args) + [k.value for k in node.keywords], self.g, node))
         self.fn.calls.append((node, self.g))
         self.generic_visit(node)
 
@@ -744,6 +797,44 @@ class Analysis:
                         todo += [(caller, j) for j in whole_flows(arg)]
         return out
 
+    def aliases(self, fn, expr):
+        """identifier names the object `expr` evaluates to inside fn may be known under (see alias_flows), through local
+        assignments, attribute loads <- stores under that name, parameters <- call-site arguments"""
+        todo = [(fn, i) for i in alias_flows(expr)]
+        seen, out = set(), set()
+        while todo:
+            f, ident = todo.pop()
+            if (id(f), ident) in seen:
+                continue
+            seen.add((id(f), ident))
+            out.add(ident)
+            for (val, _ctx) in f.assign.get(ident, []):
+                todo += [(f, j) for j in alias_flows(val)]
+            if ident in f.self_loads or ident in f.other_loads:
+                fam = self.family.get(f.cls, {f.cls}) if f.cls else set()
+                for (g, val) in self.attr_stores.get(ident, []):
+                    if ident in f.other_loads or g.cls in fam:
+                        todo += [(g, j) for j in alias_flows(val)]
+            if ident in f.params:
+                for (caller, call, _cg) in self.sites.get(id(f), []):
+                    arg = self.bound(f, call, ident)
+                    if arg is not None:
+                        todo += [(caller, j) for j in alias_flows(arg)]
+        return out
+
+    def repr_shown(self):
+        """names of the objects some __repr__ / __str__ of the package formats as a whole -> the functions doing so"""
+        out = {}
+        for fn in self.funcs:
+            if fn.name not in ("__repr__", "__str__"):
+                continue
+            for (kind, _node, exprs, _g) in fn.sinks:
+                if kind == "repr":
+                    for (_f, ident) in self.whole_objects(fn, exprs):
+                        if ident not in ("self", "cls"):
+                            out.setdefault(ident, set()).add(fn.qual)
+        return out
+
     def object_field_flows(self, fn, exprs, ctxg):
         """flows a sink gets from objects with a generated repr that reach it as a whole: every field the repr prints
         and what the package's constructor calls store into those fields (closed like any other flow)"""
@@ -848,7 +939,7 @@ def generate(outdir, repo=None):
         if rel not in an.files:
             raise ValueError("gen_sinks: anchored file missing: %s" % rel)
     rows = []
-    counts = {"log": 0, "raise": 0, "repr": 0}
+    counts = {"log": 0, "raise": 0, "repr": 0, "store": 0}
     for fn in an.funcs:
         for (kind, node, exprs, ctxg) in fn.sinks:
             fl = set()
@@ -868,6 +959,36 @@ def generate(outdir, repo=None):
                     flat.append((i, sorted(g)))
             counts[kind] += 1
             rows.append((kind, fn.file, node.lineno, fn.qual, flat, fn.file in ANCHORED))
+    # in-place stores into a container that a __repr__ / __str__ prints
+    shown = an.repr_shown()
+    if "transport_options" not in shown:
+        raise ValueError("gen_sinks: no __repr__ formats transport_options any more (BaseDriver.__repr__ changed: revisit the store rows)")
+    nmut = 0
+    store_into = {}
+    for fn in an.funcs:
+        for (recv, vals, ctxg, node) in fn.mutations:
+            nmut += 1
+            hit = sorted(an.aliases(fn, recv) & set(shown))
+            if not hit:
+                continue
+            fl = set()
+            for e in vals:
+                fl |= flows(e, ctxg)
+            closed = an.close(fn, fl) | an.object_field_flows(fn, vals, ctxg)
+            merged = {}
+            for (i, gs) in closed:
+                merged.setdefault(i, []).append(gs)
+            flat = []
+            for i in sorted(merged):
+                gss = merged[i]
+                mins = [g for g in gss if not any(h < g for h in gss)]
+                for g in sorted(set(mins), key=lambda s: (len(s), sorted(s))):
+                    flat.append((i, sorted(g)))
+            counts["store"] += 1
+            rows.append(("store", fn.file, node.lineno, fn.qual, flat, fn.file in ANCHORED))
+            store_into["%s:%d %s" % (fn.file, node.lineno, fn.qual)] = hit
+    if nmut < 20:
+        raise ValueError("gen_sinks: implausibly few in-place stores found: %d" % nmut)
     rows.sort(key=lambda r: (r[1], r[2], r[0]))
     if counts["log"] < 60 or counts["raise"] < 60 or counts["repr"] < 2:
         raise ValueError("gen_sinks: implausibly few sinks found: %r" % counts)
@@ -877,7 +998,7 @@ def generate(outdir, repo=None):
             raise ValueError("gen_sinks: identifier not representable: %r" % s)
         return '"%s"' % s
 
-    kinds = {"log": "SLog", "raise": "SRaise", "repr": "SRepr"}
+    kinds = {"log": "SLog", "raise": "SRaise", "repr": "SRepr", "store": "SStore"}
     lines = ["(* generated from the scrapli source tree by gen/gen_sinks.py — do not edit *)",
              "From Coq Require Import String List.", "From Verif Require Import Secrets.",
              "Import ListNotations.", "Open Scope string_scope.",
@@ -894,7 +1015,8 @@ def generate(outdir, repo=None):
     if not os.path.exists(path) or open(path).read() != text:
         open(path, "w").write(text)
     info = {"sinks": len(rows), "log": counts["log"], "raise": counts["raise"], "repr": counts["repr"],
-            "files": len(set(r[1] for r in rows)),
+            "files": len(set(r[1] for r in rows)), "store": counts["store"], "inplace_stores_seen": nmut,
+            "repr_shown_objects": sorted(shown), "stores_into_shown": store_into,
             "secret_reaching": [{"kind": r[0], "file": r[1], "line": r[2], "func": r[3],
                                  "flows": [[i, g] for (i, g) in r[4] if i.split("[")[0] in SECRET_HINT or i in SECRET_HINT]}
                                 for r in rows if any(i in SECRET_HINT for (i, _) in r[4])]}
